@@ -1,17 +1,19 @@
 //! Instrumented component types (one per storage kind / wrapper combination)
 //! and an object-safe driver so engines can address storages by number.
 
+use std::collections::BTreeMap;
 use std::marker::PhantomData;
 
 use specs::prelude::*;
 use specs::storage::{
-    AccessMut, BTreeStorage, DefaultVecStorage, DenseVecStorage, DerefFlaggedStorage,
+    AccessMut, ComponentEvent, BTreeStorage, DefaultVecStorage, DenseVecStorage, DerefFlaggedStorage,
     FlaggedStorage, HashMapStorage, NullStorage, StorageEntry, VecStorage,
 };
 use specs::world::{EntitiesRes, EntityResBuilder, LazyBuilder};
 use specs::{Builder, LendJoin};
 
 use crate::ledger::{self, Snap, Val, Z, ZST_SNAP};
+use crate::rng::Rng;
 
 /// What the harness needs from an instrumented component type.
 pub trait Comp: Component + Send + Sync + Default + 'static {
@@ -28,10 +30,225 @@ pub trait Comp: Component + Send + Sync + Default + 'static {
     /// Tell the ledger this value is being moved into / out of the world.
     fn given(&self);
     fn returned(&self);
+    /// Compare the slice views (if this storage kind has them) with the expected
+    /// index -> value map; returns the number of slots compared.
+    fn slice_check(_s: &ReadStorage<Self>, _exp: &BTreeMap<u32, Snap>) -> Result<u64, String> {
+        Ok(0)
+    }
+    /// Write `p` into the payload of the component of index `idx` through
+    /// `as_mut_slice`; false if this kind has no slice view.
+    fn slice_write(_s: &mut WriteStorage<Self>, _idx: u32, _target: Snap, _p: u64) -> bool {
+        false
+    }
+    /// Structural self-check hook (dense storage only).
+    fn structural(_s: &ReadStorage<Self>) -> Result<bool, String> {
+        Ok(false)
+    }
+    fn register_reader(_s: &mut WriteStorage<Self>) -> Option<ReaderId<ComponentEvent>> {
+        None
+    }
+    fn read_events(_s: &ReadStorage<Self>, _r: &mut ReaderId<ComponentEvent>) -> Vec<ComponentEvent> {
+        Vec::new()
+    }
+    fn set_emission(_s: &mut WriteStorage<Self>, _on: bool) {}
+    /// `(&entities, &mut storage).join()` writing a fresh payload to a seeded
+    /// subset; only for kinds offering shared mutable access (not the deferred
+    /// flagging wrapper). Returns (index, observed snap, written?) per item.
+    fn join_mut_run(
+        _e: &Entities,
+        _s: &mut WriteStorage<Self>,
+        _decide: &mut Rng,
+        _write_pct: u32,
+        _base: &mut u64,
+    ) -> Option<Vec<(u32, Snap, bool)>> {
+        None
+    }
+    /// `(&mut storage.restrict_mut()).join()` with seeded get / get_mut choices.
+    fn restrict_mut_join(
+        _s: &mut WriteStorage<Self>,
+        _decide: &mut Rng,
+        _get_pct: u32,
+        _mut_pct: u32,
+        _base: &mut u64,
+    ) -> Option<Vec<REv>> {
+        None
+    }
+}
+
+/// Ordered record of what a restricted join did / saw.
+#[derive(Clone, Debug)]
+pub enum REv {
+    /// item ordinal, value seen through get()
+    Get(usize, Snap),
+    /// item ordinal, value seen after writing through get_mut()
+    Mut(usize, Snap),
+    /// get_mut() obtained but not written / dereferenced mutably
+    MutNoWrite(usize, Snap),
+    /// lookup of another entity: (entity, mutable, result, payload written)
+    Other(Entity, bool, Option<Snap>, u64),
+    /// an item was yielded (ordinal)
+    Item(usize),
+}
+
+macro_rules! sgm_impl {
+    (2) => {};
+    ($t:tt) => {
+        fn join_mut_run(
+            e: &Entities,
+            s: &mut WriteStorage<Self>,
+            decide: &mut Rng,
+            write_pct: u32,
+            base: &mut u64,
+        ) -> Option<Vec<(u32, Snap, bool)>> {
+            let mut out = Vec::new();
+            for (ent, mut c) in (e, s).join() {
+                let wr = decide.chance(write_pct, 100);
+                if wr {
+                    *base += 1;
+                    c.access_mut().set_payload(*base);
+                }
+                out.push((ent.id(), c.observe(), wr));
+            }
+            Some(out)
+        }
+        fn restrict_mut_join(
+            s: &mut WriteStorage<Self>,
+            decide: &mut Rng,
+            get_pct: u32,
+            mut_pct: u32,
+            base: &mut u64,
+        ) -> Option<Vec<REv>> {
+            let mut out = Vec::new();
+            let mut r = s.restrict_mut();
+            for (i, mut item) in (&mut r).join().enumerate() {
+                out.push(REv::Item(i));
+                if decide.chance(get_pct, 100) {
+                    out.push(REv::Get(i, item.get().observe()));
+                }
+                if decide.chance(mut_pct, 100) {
+                    *base += 1;
+                    let mut a = item.get_mut();
+                    a.access_mut().set_payload(*base);
+                    out.push(REv::Mut(i, a.observe()));
+                }
+            }
+            Some(out)
+        }
+    };
+}
+
+macro_rules! slice_impl {
+    (none) => {};
+    (vec) => {
+        fn slice_check(s: &ReadStorage<Self>, exp: &BTreeMap<u32, Snap>) -> Result<u64, String> {
+            let sl = s.as_slice();
+            let mut n = 0;
+            for (i, e) in exp {
+                if (*i as usize) >= sl.len() {
+                    return Err(format!("as_slice() has {} slots but index {} is occupied", sl.len(), i));
+                }
+                // SAFETY: the model says index i is occupied, i.e. it was inserted and not removed.
+                let got = unsafe { sl[*i as usize].assume_init_ref() }.observe();
+                if got != *e {
+                    return Err(format!("as_slice()[{}] = {:?}, expected {:?}", i, got, e));
+                }
+                n += 1;
+            }
+            Ok(n)
+        }
+        fn slice_write(s: &mut WriteStorage<Self>, idx: u32, _target: Snap, p: u64) -> bool {
+            let sl = s.as_mut_slice();
+            // SAFETY: caller passes an occupied index.
+            unsafe { sl[idx as usize].assume_init_mut() }.set_payload(p);
+            true
+        }
+    };
+    (default) => {
+        fn slice_check(s: &ReadStorage<Self>, exp: &BTreeMap<u32, Snap>) -> Result<u64, String> {
+            let sl = s.as_slice();
+            let mut n = 0;
+            if let Some((max, _)) = exp.iter().next_back() {
+                if (*max as usize) >= sl.len() {
+                    return Err(format!("as_slice() has {} slots but index {} is occupied", sl.len(), max));
+                }
+            }
+            for (i, c) in sl.iter().enumerate() {
+                let got = c.observe();
+                match exp.get(&(i as u32)) {
+                    Some(e) => {
+                        if got != *e {
+                            return Err(format!("as_slice()[{}] = {:?}, expected {:?}", i, got, e));
+                        }
+                    }
+                    None => {
+                        if got.payload != crate::ledger::DEFAULT_PAYLOAD
+                            || ledger::origin(got.id) != Some(ledger::Origin::Default)
+                        {
+                            return Err(format!(
+                                "as_slice()[{}] is unoccupied but holds {:?} instead of a default value",
+                                i, got
+                            ));
+                        }
+                    }
+                }
+                n += 1;
+            }
+            Ok(n)
+        }
+        fn slice_write(s: &mut WriteStorage<Self>, idx: u32, _target: Snap, p: u64) -> bool {
+            s.as_mut_slice()[idx as usize].set_payload(p);
+            true
+        }
+    };
+    (dense) => {
+        fn slice_check(s: &ReadStorage<Self>, exp: &BTreeMap<u32, Snap>) -> Result<u64, String> {
+            let sl = s.as_slice();
+            let mut got: Vec<Snap> = sl.iter().map(|c| c.observe()).collect();
+            got.sort();
+            let mut want: Vec<Snap> = exp.values().cloned().collect();
+            want.sort();
+            if got != want {
+                return Err(format!(
+                    "dense as_slice() is not a permutation of the stored values: {} slots vs {} values; first slots {:?}",
+                    got.len(),
+                    want.len(),
+                    got.iter().take(6).collect::<Vec<_>>()
+                ));
+            }
+            Ok(got.len() as u64)
+        }
+        fn slice_write(s: &mut WriteStorage<Self>, _idx: u32, target: Snap, p: u64) -> bool {
+            for c in s.as_mut_slice().iter_mut() {
+                if c.0.id == target.id {
+                    c.set_payload(p);
+                    return true;
+                }
+            }
+            false
+        }
+        fn structural(s: &ReadStorage<Self>) -> Result<bool, String> {
+            s.unprotected_storage().verif_check(s.mask()).map(|_| true)
+        }
+    };
+}
+
+macro_rules! track_impl {
+    (0) => {};
+    ($t:tt) => {
+        fn register_reader(s: &mut WriteStorage<Self>) -> Option<ReaderId<ComponentEvent>> {
+            Some(s.register_reader())
+        }
+        fn read_events(s: &ReadStorage<Self>, r: &mut ReaderId<ComponentEvent>) -> Vec<ComponentEvent> {
+            s.channel().read(r).cloned().collect()
+        }
+        fn set_emission(s: &mut WriteStorage<Self>, on: bool) {
+            s.set_event_emission(on);
+        }
+    };
 }
 
 macro_rules! def_comp {
-    ($name:ident, $storage:ty, $tracked:expr) => {
+    ($name:ident, $storage:ty, $tracked:tt, $slice:tt) => {
         #[derive(Debug, Default)]
         pub struct $name(pub Val);
         impl Component for $name {
@@ -60,31 +277,34 @@ macro_rules! def_comp {
             fn returned(&self) {
                 ledger::returned(self.0.id)
             }
+            slice_impl!($slice);
+            track_impl!($tracked);
+            sgm_impl!($tracked);
         }
     };
 }
 
-def_comp!(CVec, VecStorage<Self>, 0);
-def_comp!(CDense, DenseVecStorage<Self>, 0);
-def_comp!(CDefault, DefaultVecStorage<Self>, 0);
-def_comp!(CHash, HashMapStorage<Self>, 0);
-def_comp!(CBTree, BTreeStorage<Self>, 0);
-def_comp!(CFlagVec, FlaggedStorage<Self, VecStorage<Self>>, 1);
-def_comp!(CFlagDense, FlaggedStorage<Self, DenseVecStorage<Self>>, 1);
-def_comp!(CFlagDefault, FlaggedStorage<Self, DefaultVecStorage<Self>>, 1);
-def_comp!(CFlagHash, FlaggedStorage<Self, HashMapStorage<Self>>, 1);
-def_comp!(CFlagBTree, FlaggedStorage<Self, BTreeStorage<Self>>, 1);
-def_comp!(CDerefVec, DerefFlaggedStorage<Self, VecStorage<Self>>, 2);
-def_comp!(CDerefDense, DerefFlaggedStorage<Self, DenseVecStorage<Self>>, 2);
-def_comp!(CDerefDefault, DerefFlaggedStorage<Self, DefaultVecStorage<Self>>, 2);
-def_comp!(CDerefHash, DerefFlaggedStorage<Self, HashMapStorage<Self>>, 2);
-def_comp!(CDerefBTree, DerefFlaggedStorage<Self, BTreeStorage<Self>>, 2);
+def_comp!(CVec, VecStorage<Self>, 0, vec);
+def_comp!(CDense, DenseVecStorage<Self>, 0, dense);
+def_comp!(CDefault, DefaultVecStorage<Self>, 0, default);
+def_comp!(CHash, HashMapStorage<Self>, 0, none);
+def_comp!(CBTree, BTreeStorage<Self>, 0, none);
+def_comp!(CFlagVec, FlaggedStorage<Self, VecStorage<Self>>, 1, none);
+def_comp!(CFlagDense, FlaggedStorage<Self, DenseVecStorage<Self>>, 1, none);
+def_comp!(CFlagDefault, FlaggedStorage<Self, DefaultVecStorage<Self>>, 1, none);
+def_comp!(CFlagHash, FlaggedStorage<Self, HashMapStorage<Self>>, 1, none);
+def_comp!(CFlagBTree, FlaggedStorage<Self, BTreeStorage<Self>>, 1, none);
+def_comp!(CDerefVec, DerefFlaggedStorage<Self, VecStorage<Self>>, 2, none);
+def_comp!(CDerefDense, DerefFlaggedStorage<Self, DenseVecStorage<Self>>, 2, none);
+def_comp!(CDerefDefault, DerefFlaggedStorage<Self, DefaultVecStorage<Self>>, 2, none);
+def_comp!(CDerefHash, DerefFlaggedStorage<Self, HashMapStorage<Self>>, 2, none);
+def_comp!(CDerefBTree, DerefFlaggedStorage<Self, BTreeStorage<Self>>, 2, none);
 // second plain instances so a world can hold two storages of the same kind
-def_comp!(CVec2, VecStorage<Self>, 0);
-def_comp!(CDense2, DenseVecStorage<Self>, 0);
+def_comp!(CVec2, VecStorage<Self>, 0, vec);
+def_comp!(CDense2, DenseVecStorage<Self>, 0, dense);
 
 macro_rules! def_zst {
-    ($name:ident, $storage:ty, $tracked:expr) => {
+    ($name:ident, $storage:ty, $tracked:tt) => {
         #[derive(Debug, Default)]
         pub struct $name(pub Z);
         impl Component for $name {
@@ -106,6 +326,8 @@ macro_rules! def_zst {
             fn set_payload(&mut self, _p: u64) {}
             fn given(&self) {}
             fn returned(&self) {}
+            track_impl!($tracked);
+            sgm_impl!($tracked);
         }
     };
 }
@@ -130,9 +352,12 @@ pub enum Path {
     RestrictReadGetOther,
     ReadGet,
     ReadContains,
+    GetMutNoWrite,
+    EntryReplace,
+    EntryRemove,
 }
 
-pub const ALL_PATHS: [Path; 15] = [
+pub const ALL_PATHS: [Path; 18] = [
     Path::Get,
     Path::GetMut,
     Path::Contains,
@@ -148,6 +373,9 @@ pub const ALL_PATHS: [Path; 15] = [
     Path::RestrictReadGetOther,
     Path::ReadGet,
     Path::ReadContains,
+    Path::GetMutNoWrite,
+    Path::EntryReplace,
+    Path::EntryRemove,
 ];
 
 /// Outcome of one access, normalised so a model can predict it.
@@ -280,6 +508,45 @@ where
                 r
             }
             Path::Contains => Out::Bool(w.write_storage::<C>().contains(e)),
+            Path::GetMutNoWrite => {
+                let mut s = w.write_storage::<C>();
+                let r = match s.get_mut(e) {
+                    Some(c) => Out::Found(c.observe()),
+                    None => Out::Absent,
+                };
+                r
+            }
+            Path::EntryReplace => {
+                let mut s = w.write_storage::<C>();
+                let r = match s.entry(e) {
+                    Err(_) => Out::EntryErr,
+                    Ok(entry) => {
+                        let (c, snap) = C::make(payload);
+                        c.given();
+                        match entry.replace(c) {
+                            Some(old) => {
+                                old.returned();
+                                Out::InsOk(Some(old.snap()), snap)
+                            }
+                            None => Out::InsOk(None, snap),
+                        }
+                    }
+                };
+                r
+            }
+            Path::EntryRemove => {
+                let mut s = w.write_storage::<C>();
+                let r = match s.entry(e) {
+                    Err(_) => Out::EntryErr,
+                    Ok(StorageEntry::Vacant(_)) => Out::EntryVacant,
+                    Ok(StorageEntry::Occupied(o)) => {
+                        let old = o.remove();
+                        old.returned();
+                        Out::Found(old.snap())
+                    }
+                };
+                r
+            }
             Path::Insert => {
                 let mut s = w.write_storage::<C>();
                 let (c, snap) = C::make(payload);
